@@ -23,10 +23,10 @@ CHECK = "check"
 FMT_NAMES = ["u8", "i16", "f32", "I24", "u64"]
 FMT_SIZE = [1, 2, 4, 4, 8]
 OP_NAMES = ["equilibrium", "map_in_place", "zip_map_in_place", "write", "add_in_place", "add_in_place_with_amp_per_channel"]
-ZFMT_NAMES = ["[i32;2]", "[f32;2]", "[u8;2]"]
+ZFMT_NAMES = ["[i32;2]", "[f32;2]", "[u8;2]", "f32(mono)"]
 # (op, zfmt) combinations the harness implements
-TWO_SLICE = [(2, 0), (3, 0), (4, 0), (3, 1), (4, 1), (5, 1), (3, 2)]
-ONE_SLICE = [(0, 0), (1, 0), (0, 1), (0, 2)]
+TWO_SLICE = [(2, 0), (3, 0), (4, 0), (3, 1), (4, 1), (5, 1), (3, 2), (3, 3), (4, 3), (5, 3)]
+ONE_SLICE = [(0, 0), (1, 0), (0, 1), (0, 2), (0, 3)]
 
 
 def sample_value(r, fmt):
@@ -90,7 +90,13 @@ def op_values(r, zfmt, n):
         return [[r.range(-1000, 1000), r.range(-1000, 1000)] for _ in range(n)]
     if zfmt == 1:
         return [[f32_amp(r), f32_amp(r)] for _ in range(n)]
+    if zfmt == 3:
+        return [[f32_amp(r)] for _ in range(n)]
     return [[r.below(256), r.below(256)] for _ in range(n)]
+
+
+def amp_for(r, zf):
+    return [f32_amp(r), f32_amp(r)] if zf == 1 else [f32_amp(r)] if zf == 3 else [0, 0]
 
 
 def gen_cases(rng, tier):
@@ -129,7 +135,7 @@ def gen_cases(rng, tier):
                 for lb in range(0, 7):
                     r = rng.fork(f"z{rep_i}_{op}_{zf}_{la}_{lb}")
                     items.append(build(dict(kind="Z", op=op, fmt=zf, k=0, a=op_values(r, zf, la), b=op_values(r, zf, lb),
-                                            amp=[f32_amp(r), f32_amp(r)] if zf == 1 else [0, 0])))
+                                            amp=amp_for(r, zf))))
         for (op, zf) in ONE_SLICE:
             for la in range(0, 7):
                 r = rng.fork(f"o{rep_i}_{op}_{zf}_{la}")
@@ -141,7 +147,7 @@ def gen_cases(rng, tier):
             la = r.range(0, 60)
             lb = la if r.chance(1, 2) else r.range(0, 60)
             items.append(build(dict(kind="Z", op=op, fmt=zf, k=0, a=op_values(r, zf, la), b=op_values(r, zf, lb),
-                                    amp=[f32_amp(r), f32_amp(r)] if zf == 1 else [0, 0])))
+                                    amp=amp_for(r, zf))))
     return items, n_grid
 
 
@@ -189,7 +195,7 @@ def shrink(it, fails):
                              s1=[min(it["s1"][0], K2 * N), 97], s2=[min(it["s2"][0], K2 * N), 96])
                 cands.append(c)
     else:
-        if it["fmt"] != 1:
+        if it["fmt"] in (0, 2):
             cands.append(dict(case_fields(it), a=[[i + 1, -(i + 1)] for i in range(len(it["a"]))],
                               b=[[10 * (i + 1), 7] for i in range(len(it["b"]))]))
     for c in cands:
